@@ -2,6 +2,74 @@ package main
 
 // Counterexample search and replay against the real code (DESIGN.md 5.1).
 
+import (
+	"bytes"
+	"context"
+	"encoding/json"
+	"fmt"
+	"os"
+	"os/exec"
+	"path/filepath"
+	"strings"
+	"time"
+)
+
+// harnessSpec describes an injected in-package test.
+type harnessSpec struct {
+	PkgDir   string // relative to the repo root
+	Template string // file under /verif/replay
+	FileName string // virtual file name inside the package directory
+}
+
+var harnesses = map[string]harnessSpec{
+	"policy": {PkgDir: ".", Template: "policy_replay_test.go.txt", FileName: "zz_verif_policy_replay_test.go"},
+	"disasm": {PkgDir: "cmd/seccomp-profiler/disasm", Template: "disasm_replay_test.go.txt", FileName: "zz_verif_disasm_replay_test.go"},
+	"text":   {PkgDir: ".", Template: "text_replay_test.go.txt", FileName: "zz_verif_text_replay_test.go"},
+	"loader": {PkgDir: ".", Template: "loader_replay_test.go.txt", FileName: "zz_verif_loader_replay_test.go"},
+	"arch":   {PkgDir: "arch", Template: "arch_replay_test.go.txt", FileName: "zz_verif_arch_replay_test.go"},
+	"profiler": {PkgDir: "cmd/seccomp-profiler", Template: "profiler_replay_test.go.txt", FileName: "zz_verif_profiler_replay_test.go"},
+}
+
+// runOverlayTest runs `go test -overlay` in the package with the harness injected.
+// env carries VERIF_* variables; the result file content is returned.
+func (e *Engine) runOverlayTest(h harnessSpec, testName string, env map[string]string, timeout time.Duration) ([]byte, string, error) {
+	tmp, err := os.MkdirTemp("", "govc-replay")
+	if err != nil {
+		return nil, "", err
+	}
+	defer os.RemoveAll(tmp)
+	src := filepath.Join(e.VerifDir, "replay", h.Template)
+	if _, err := os.Stat(src); err != nil {
+		return nil, "", fmt.Errorf("harness template %s missing", h.Template)
+	}
+	virt := filepath.Join(e.RepoDir, h.PkgDir, h.FileName)
+	ov := map[string]map[string]string{"Replace": {virt: src}}
+	ovData, _ := json.Marshal(ov)
+	ovFile := filepath.Join(tmp, "overlay.json")
+	os.WriteFile(ovFile, ovData, 0o644)
+	resFile := filepath.Join(tmp, "result.json")
+	ctx, cancel := context.WithTimeout(context.Background(), timeout+30*time.Second)
+	defer cancel()
+	cmd := exec.CommandContext(ctx, "go", "test", "-overlay", ovFile, "-vet=off", "-count=1", "-timeout", fmt.Sprintf("%ds", int(timeout.Seconds())), "-run", "^"+testName+"$", ".")
+	cmd.Dir = filepath.Join(e.RepoDir, h.PkgDir)
+	cmd.Env = append(os.Environ(), "GOFLAGS=-mod=mod", "GOPROXY=off", "GOSUMDB=off", "GOTOOLCHAIN=local", "VERIF_RESULT="+resFile, "GOCACHE="+filepath.Join(tmp, "gocache"))
+	// reuse the user's build cache when available (faster); fall back to the private one
+	if gc := os.Getenv("GOCACHE"); gc != "" {
+		cmd.Env = append(cmd.Env, "GOCACHE="+gc)
+	} else if home, _ := os.UserHomeDir(); home != "" {
+		cmd.Env = append(cmd.Env, "GOCACHE="+filepath.Join(home, ".cache", "go-build"))
+	}
+	for k, v := range env {
+		cmd.Env = append(cmd.Env, k+"="+v)
+	}
+	var out bytes.Buffer
+	cmd.Stdout = &out
+	cmd.Stderr = &out
+	runErr := cmd.Run()
+	data, _ := os.ReadFile(resFile)
+	return data, out.String(), runErr
+}
+
 // replayKnown re-runs the recorded witness of a known finding; it must still reproduce.
 func (e *Engine) replayKnown(kf *KnownFinding) (bool, string) {
 	if kf.Harness == "" {
@@ -10,13 +78,125 @@ func (e *Engine) replayKnown(kf *KnownFinding) (bool, string) {
 	return runHarness(e, kf.Harness, kf.Witness)
 }
 
-// findFailingInput looks for an input of the real code that exhibits the failed obligation.
+// runHarness replays witnesses; true when at least one disagreement is reproduced.
+func runHarness(e *Engine, harness string, witness []byte) (bool, string) {
+	h, ok := harnesses[harness]
+	if !ok {
+		return false, "unknown harness " + harness
+	}
+	tmp, err := os.MkdirTemp("", "govc-wit")
+	if err != nil {
+		return false, err.Error()
+	}
+	defer os.RemoveAll(tmp)
+	wf := filepath.Join(tmp, "witness.json")
+	w := bytes.TrimSpace(witness)
+	if len(w) > 0 && w[0] != '[' {
+		w = append(append([]byte("["), w...), ']')
+	}
+	os.WriteFile(wf, w, 0o644)
+	data, out, _ := e.runOverlayTest(h, "TestVerifReplay", map[string]string{"VERIF_WITNESS": wf}, 120*time.Second)
+	var ds []json.RawMessage
+	if err := json.Unmarshal(data, &ds); err != nil {
+		return false, "replay produced no result: " + firstLines(out, 8)
+	}
+	if len(ds) == 0 {
+		return false, "witness no longer reproduces"
+	}
+	return true, string(ds[0])
+}
+
+// propHarness: which witness family to search for a property.
+var propHarness = map[string]string{
+	"C01": "policy", "C02": "policy", "C03": "policy", "C04": "policy", "C05": "policy", "C06": "policy", "C07": "policy",
+	"C16": "disasm", "C14": "text", "C13": "text", "C12": "arch", "C09": "loader", "C10": "loader", "C11": "loader", "C08": "loader",
+	"C17": "profiler", "C18": "profiler",
+}
+
+// kindsFor: which disagreement kinds of the family count as a failing input for the property.
+var kindsFor = map[string][]string{
+	"C01": {"decision", "fault"}, "C02": {"decision"}, "C03": {"decision"}, "C04": {"decision", "fault"},
+	"C05": {"kernel-verifier", "return-set", "fault"}, "C06": {"decision", "fault", "valid-rejected"},
+	"C07": {"panic", "invalid-accepted", "error-with-program", "valid-rejected"},
+}
+
+var familyCache = map[string][]map[string]interface{}{}
+
+// findFailingInput looks for an input of the real code that exhibits the failed obligation:
+// the property's witness family is enumerated against the real code (in-package test injected by overlay).
 func (e *Engine) findFailingInput(prop, id string, obs []*Obligation, tier string, seed int) (bool, interface{}) {
+	hn, ok := propHarness[prop]
+	if !ok {
+		return false, nil
+	}
+	h := harnesses[hn]
+	if _, err := os.Stat(filepath.Join(e.VerifDir, "replay", h.Template)); err != nil {
+		return false, nil
+	}
+	ds, cached := familyCache[hn]
+	if !cached {
+		data, out, _ := e.runOverlayTest(h, "TestVerifFamily", map[string]string{"VERIF_FAMILY": prop, "VERIF_SEED": fmt.Sprint(seed), "VERIF_TIER": tier}, 300*time.Second)
+		if err := json.Unmarshal(data, &ds); err != nil {
+			familyCache[hn] = nil
+			return false, map[string]string{"family_error": firstLines(out, 10)}
+		}
+		familyCache[hn] = ds
+	}
+	kinds := kindsFor[prop]
+	for _, d := range ds {
+		k, _ := d["kind"].(string)
+		match := len(kinds) == 0
+		for _, kk := range kinds {
+			if kk == k {
+				match = true
+			}
+		}
+		if match {
+			d["harness"] = hn
+			d["how"] = "found by enumerating the witness family of " + prop + " against the real code (go test -overlay); the obligation above is the proof step that fails"
+			return true, d
+		}
+	}
 	return false, nil
 }
 
-func runHarness(e *Engine, harness string, witness []byte) (bool, string) {
-	return false, "harness " + harness + " not available"
+func cmdReplay(args []string) int {
+	if len(args) < 1 {
+		usage()
+	}
+	data, err := os.ReadFile(args[0])
+	if err != nil {
+		fmt.Fprintln(os.Stderr, err)
+		return 2
+	}
+	var rec struct {
+		Property   string `json:"property"`
+		Obligation string `json:"obligation"`
+		Found      bool   `json:"failing_input_found"`
+		Witness    struct {
+			Harness string          `json:"harness"`
+			Witness json.RawMessage `json:"witness"`
+		} `json:"witness"`
+	}
+	if err := json.Unmarshal(data, &rec); err != nil {
+		fmt.Fprintln(os.Stderr, err)
+		return 2
+	}
+	fmt.Printf("property %s, failed obligation %s\n", rec.Property, rec.Obligation)
+	if !rec.Found || rec.Witness.Harness == "" {
+		fmt.Println("no failing input recorded; re-run the check to regenerate the obligation (solver output is in the replay file)")
+		return 0
+	}
+	e, err := newEngine("", "")
+	if err != nil {
+		fmt.Fprintln(os.Stderr, err)
+		return 3
+	}
+	ok, detail := runHarness(e, rec.Witness.Harness, rec.Witness.Witness)
+	if ok {
+		fmt.Println("REPRODUCED on the real code:", strings.TrimSpace(detail))
+		return 1
+	}
+	fmt.Println("not reproduced:", detail)
+	return 0
 }
-
-func runSelftest(args []string) int { return 3 }
